@@ -81,6 +81,11 @@ def cases(shard, tier):
         for sp in rng:
             for step in STEPS:
                 yield [t, ["slice", st, sp, step]]
+    if shard.get("slim") and L == 40:
+        # steps at and beyond the 32-bit range (at most one element per run survives)
+        for step in (2 ** 31 - 1, 2 ** 31, 2 ** 40, -2 ** 31, -2 ** 35, 2 ** 31 - L):
+            for st, sp in ((None, None), (3, 11), (-5, None), (None, 2), (L - 1, None)):
+                yield [t, ["slice", st, sp, step]]
     if shard.get("slim"):
         return
     for k in (0, 1, 2):
